@@ -11,6 +11,8 @@
 //	-mode pkgnames the package name the REAL Check() of the exec / model / resolver sections derives from the output
 //	              directory when `package:` is omitted, on really created directories (name x state), layouts.go;
 //	              -mode schemas -layouts writes the "project layout" projects c17l*
+//	              -mode schemas -inputres writes the "input objects with field resolvers" projects c17i* (inputres.go)
+//	              -mode schemas -schemalocs writes the "where the schema files live" projects c17s* (schemaloc.go)
 //	-mode decls   go/parser over the files generated in -dir: declared identifiers by scope, and the schema
 //	              summary line for the Lean model's `emitted`
 //
@@ -47,6 +49,10 @@ func main() {
 	rootCorpus := flag.String("rootcorpus", "", "directed root-typed-field corpus (schemas, with -rootrefs)")
 	withLayouts := flag.Bool("layouts", false, "schemas: also write the project-layout projects (c17l*)")
 	layoutCorpus := flag.String("layoutcorpus", "", "directed project-layout corpus (schemas, with -layouts)")
+	withInputRes := flag.Bool("inputres", false, "schemas: also write the input-field-resolver projects (c17i*)")
+	inputCorpus := flag.String("inputcorpus", "", "directed input-field-resolver corpus (schemas, with -inputres)")
+	withSchemaLocs := flag.Bool("schemalocs", false, "schemas: also write the schema-location projects (c17s*)")
+	locCorpus := flag.String("loccorpus", "", "directed schema-location corpus (schemas, with -schemalocs)")
 	flag.Parse()
 	defer out.Flush()
 	switch *mode {
@@ -62,6 +68,12 @@ func main() {
 		}
 		if *withLayouts {
 			writeLayouts(*outDir, *seed, *tier, *layoutCorpus)
+		}
+		if *withInputRes {
+			writeInputRes(*outDir, *seed, *tier, *inputCorpus)
+		}
+		if *withSchemaLocs {
+			writeSchemaLocs(*outDir, *seed, *tier, *locCorpus)
 		}
 	case "typerefs":
 		runTypeRefs(*tier, *seed)
